@@ -111,3 +111,71 @@ def downgrade(state: dict, target: int):
         _STEPS[v](s, e)
         s["version"] = v
     return s, e
+
+
+# ------------------------------------------------------------------------------------------- old-format WebSocket flows
+# Formats <= 11 (mitmproxy <= 6) stored one WebSocket connection as TWO flows: the HTTP handshake flow (written when the 101
+# response arrived, metadata {"websocket": True}) and a separate flow of type "websocket" (written when the connection
+# closed) that names its handshake by id in metadata["websocket_handshake"].  Loading merges the pair into one HTTP flow
+# with a `websocket` attribute; a websocket flow whose handshake is not in the file is put on a made-up request to
+# http://unknown/.
+
+DUPLICATED = "This WebSocket flow has been migrated from an old file format version and may appear duplicated."
+WS_TARGETS = (11, 10)
+
+
+def old_handshake(state: dict, target: int):
+    """state: current-format state of a plain HTTP flow (no websocket, no backup).  -> (old handshake state, expected)"""
+    assert target in WS_TARGETS and state["type"] == "http" and not state.get("websocket")
+    old, exp = downgrade(state, target)
+    old["metadata"]["websocket"] = True
+    exp["metadata"]["websocket"] = True
+    return old, exp
+
+
+def old_websocket_flow(base: dict, target: int, handshake_id: str, messages: list, close_sender: str, close_code: int, close_reason: str):
+    """base: current-format state of an HTTP flow whose connection/flow-level fields the old websocket flow shares.
+    messages: old message states [opcode, from_client, content (str for text, bytes for binary), timestamp, killed].
+    -> (old websocket-flow state, expected current state of `base` -- used for the fields the merged flow inherits)"""
+    assert target in WS_TARGETS
+    old, exp = downgrade(base, target)
+    for k in ("request", "response", "mode"):
+        old.pop(k, None)
+    old["type"] = "websocket"
+    old["metadata"] = {"websocket_handshake": handshake_id}
+    old.update(
+        messages=copy.deepcopy(messages), close_sender=close_sender, close_code=close_code, close_message="(message missing)", close_reason=close_reason,
+        client_key="psOeQKar8m7Otzq5uzGAhw==", client_protocol=None, client_extensions="permessage-deflate",
+        server_accept="KHQasWKt4lBrFLDDBlc9uW9oLDc=", server_protocol=None, server_extensions=None,
+    )
+    return old, exp
+
+
+def _ws_data(old_ws: dict, timestamp_end):
+    return {
+        "messages": [[m[0], m[1], m[2].encode("utf8") if isinstance(m[2], str) else m[2], m[3], m[4], False] for m in old_ws["messages"]],
+        "closed_by_client": old_ws["close_sender"] == "client",
+        "close_code": old_ws["close_code"],
+        "close_reason": old_ws["close_reason"],
+        "timestamp_end": timestamp_end,
+    }
+
+
+def expected_merged(exp_handshake: dict, old_ws: dict) -> dict:
+    """Current state of the websocket flow once merged onto its OWN handshake."""
+    e = copy.deepcopy(exp_handshake)
+    e["metadata"]["duplicated"] = DUPLICATED
+    e["websocket"] = _ws_data(old_ws, e["server_conn"]["timestamp_end"])
+    return e
+
+
+def expected_fallback(exp_base: dict, old_ws: dict) -> dict:
+    """Current state of a websocket flow whose handshake flow is not in the file (documented made-up request)."""
+    e = copy.deepcopy(exp_base)
+    e["request"] = {"http_version": b"HTTP/1.1", "headers": [], "content": None, "trailers": None, "timestamp_start": 0, "timestamp_end": 0,
+                    "host": "unknown", "port": 80, "method": b"GET", "scheme": b"http", "authority": b"", "path": b"/"}
+    e["response"] = None
+    e["metadata"] = {"duplicated": DUPLICATED}
+    e["timestamp_created"] = 0
+    e["websocket"] = _ws_data(old_ws, e["server_conn"]["timestamp_end"])
+    return e
